@@ -21,8 +21,8 @@ Two execution modes:
               model); after its LAST operation the full observation is made.  Every history of every
               length 1..L is run, so the observation is made after every operation of every history
               without the observation (which contains a pack) perturbing the prefix.
-    observed  histories of the maximal length with the full observation after EVERY operation
-              (the dense interleaving op,read,pack,read,op,...).
+    observed  histories of length L-1 with the full observation after EVERY operation
+              (the dense interleaving op,read,pack,read,op,...; an addition to the pure enumeration).
 Full observation: described reads as the model's visible value; tracked/other fields read as
 assigned/parsed; pack() == reference encoding of what the attributes read; a second pack() gives the
 same bytes; no attribute reads differently after pack(); hasattr(p, '__dict__') is False.
@@ -52,12 +52,12 @@ RULE = {
              "a vectorised run pad/length/kind; AutoLength over a repeated Int; general Auto) x 3 code-generation option sets "
              "x 8-9 starts (C(), C(described=k consistent / inconsistent), C(tracked=v), C(described=k, tracked=v) consistent / "
              "inconsistent, unpack(raw) x2-3) x EVERY operation sequence of length 1..4 over 7 operations (pure mode, full "
-             "observation after the last operation) + every sequence of length 4 with the full observation after every "
+             "observation after the last operation) + every sequence of length 3 with the full observation after every "
              "operation (observed mode); Part 2: every sequence of length 1..3 over 14 operations on two live packets x 3 start "
              "pairs x 12 classes. Exhaustive for these bounds. A history is non-trivial when start+operations contain at least "
              "one assignment/deletion/keyword/unpack affecting the described or tracked field (i.e. not only reads and packs of "
              "a plain C()); distinct = distinct (class, start, mode, operation sequence).",
-    "thorough": "as quick with every operation sequence of length 1..6 (pure) and of length 6 (observed), sharded by "
+    "thorough": "as quick with every operation sequence of length 1..6 (pure) and of length 5 (observed), sharded by "
                 "(class, start, mode, first operation); Part 2 with sequences of length 1..4. Exhaustive for these bounds. "
                 "Non-trivial as in quick; distinct = distinct (class, start, mode, first<=4 operations (<=3 in Part 2)) groups (the exact number "
                 "of executed histories is in counters histories_pure / histories_observed / two_packet_histories).",
@@ -454,7 +454,7 @@ def run(run):
     shard, nshards = run.shard
     quick = run.tier == "quick"
     L = 4 if quick else 6
-    LOBS = 3 if quick else 6          # length of the observed-mode histories
+    LOBS = 3 if quick else 5          # length of the observed-mode histories
     L2 = 3 if quick else 4
     budget = 150.0 if quick else 560.0
     t0 = time.time()
